@@ -31,10 +31,6 @@ _G = {}
 
 # ----------------------------------------------------------------------------------------------
 # vocabulary (from the schema XML, independent of hed): tags that are valid on their own
-_SPECIAL = {"requireChild", "unique", "required", "tagGroup", "topLevelTagGroup", "reserved", "deprecatedFrom",
-            "takesValue", "inLibrary", "rooted", "hedId_never"}
-
-
 def vocabulary(version="8.3.0"):
     f = facts.load(version)
     plain, valued = [], []
@@ -320,6 +316,39 @@ def run(ctx):
         "'#' inside a Definition group does not count for the categorical rule (columns of definitions are clean)",
         "annotation strings are drawn round-robin from the schema 8.3.0 vocabulary read by vf/facts.py, distinct within one document",
     ]
+
+
+def selftest(ctx):
+    """Show that the binding can fail: swap the expected class of emitted documents and check that judge() objects."""
+    lines = _tlc_gen(ctx, "MC_SidecarRules_gen2q.cfg", "selftest: small fault layer", 4)
+    plain, valued = vocabulary()
+    conc = Concretiser(plain, valued)
+    _init()
+    bad = 0
+    tried = {"one-fault-as-clean": 0, "clean-as-one-fault": 0, "wrong-code": 0}
+    for n, j in enumerate(sorted(lines, key=lambda x: json.dumps(x["doc"], sort_keys=True))[:600]):
+        case = {"text": json.dumps(conc.render(j["doc"], n)), "cls": j["cls"], "why": j["why"], "broken": sorted(j["broken"]),
+                "codes": sorted(j["codes"]), "at": [tuple(a) for a in j["at"]]}
+        out = run_text(case["text"])
+        if "issues" not in out:
+            continue
+        if j["cls"] == "one-fault":
+            swapped = [dict(case, cls="clean", why="clean", broken=[], codes=[]), dict(case, codes=["NO_SUCH_CODE"])]
+            names = ["one-fault-as-clean", "wrong-code"]
+        elif j["cls"] == "clean":
+            swapped = [dict(case, cls="one-fault", why="one-fault", broken=["naNotKey"], codes=["SIDECAR_INVALID"], at=[("colA", "n/a")])]
+            names = ["clean-as-one-fault"]
+        else:
+            continue
+        if judge(case, out)[0]:
+            continue            # a genuine disagreement: not what the self-test is about
+        for nm, sw in zip(names, swapped):
+            tried[nm] += 1
+            if not judge(sw, out)[0]:
+                bad += 1
+                print("SELFTEST-MISS %s: %s" % (nm, case["text"]))
+    print("C08 selftest: corrupted expectations tried %s, not detected %d" % (tried, bad))
+    return 1 if bad or not all(tried.values()) else 0
 
 
 def replay(obj):
